@@ -593,4 +593,5 @@ def run(ctx, led):
     run_rule(led, "H10", "the cached profile explanation is reset whenever the profile changes (shared with C17-L12)", _C17.l12, ctx)
     run_rule(led, "H11", "WITNESS-POINT of pointwise hole explanations lies in the profile and in the task's run", h11, ctx)
     run_rule(led, "H13", "incremental insertion handles the gap and the overlap for every overlapped profile (MUST-PASS on the loop)", h13, ctx)
+    run_rule(led, "H15", "WHO-MAY-SHRINK: tasks leave a resource profile only where a mandatory part is undone (shared with C17-L24)", _C17.l24, ctx)
     run_rule(led, "H14", "reasons assembled from several profiles are the union of their parts (shared with C17-L21)", _C17.l21, ctx)
